@@ -161,7 +161,7 @@ def generate(repo):
         r'if let Some\(seq\) = self\.as_of\s*\{\s*let elements = self\.store\.elements_at\(&self\.space, kind, seq\)', cd))))
     ld = fn_body(kq, 'load', G)
     out.append('Definition historical_load_reads_element_at : bool := %s.\n' % b(bool(re.search(
-        r'Some\(seq\) => self\.store\.element_at\(&self\.space, id, seq\)', ld))))
+        r'Some\(seq\) => (?:match )?self\.store\.element_at\(&self\.space, id, seq\)', ld))))
     # ---- nexus.rs: Executor::execute for Session - which side of the RwLock each command family holds, and for how long
     nx = strip_rust_comments(read(repo, base + 'nexus.rs'))
     m = re.search(r'impl Executor for Session\s*\{(.*?)\n\}\n', nx, re.S)
